@@ -25,7 +25,7 @@ func init() {
 		Assumptions: []string{
 			"for Cores == 1 'the same order' is exact sequence equality; for Cores > 1 concurrent callbacks have no global order, so the demand is the strongest the format supports: every reader goroutine's stream is a subsequence of the written order, and the multiset of elements is equal",
 			"node coordinates must match within one granularity step (1e-7 degrees)",
-			"tag keys are non-empty (OSM keys are); values and roles may be empty",
+			"tag keys, values and roles may be empty strings",
 		},
 		Rule: "one case = (element sequence with type interleavings, tag/role strings incl. empty and repeated, negative and large ids, extreme coordinates, occasionally >8000 elements of one type so that one group overflows into a second block; reader cores; read fragmentation) under one schedule; non-trivial = >=2 scheduling decisions with >=2 runnable tasks; distinct = distinct hash of the schedule trace",
 	})
@@ -72,7 +72,11 @@ func runC27(rc *RC) {
 	tags := func() osm.Tags {
 		var t osm.Tags
 		for k := rc.Draw(4); k > 0; k-- {
-			t = append(t, osm.Tag{Key: keys[rc.Draw(len(keys))], Value: vals[rc.Draw(len(vals))]})
+			key := keys[rc.Draw(len(keys))]
+			if rc.Pct(6) {
+				key = "" // an empty key is a string like any other to the writer
+			}
+			t = append(t, osm.Tag{Key: key, Value: vals[rc.Draw(len(vals))]})
 		}
 		return t
 	}
